@@ -37,6 +37,8 @@ pub enum Alter {
     DropLast,
     /// associated data only (handshake): earlier unauthenticated payload altered
     Ad,
+    /// bytes appended after the tag (the key and nonce stay right, the body is still the plaintext's)
+    Extend(u8),
 }
 
 #[derive(Clone, Debug, Serialize, Deserialize)]
@@ -46,9 +48,15 @@ pub struct Case {
     pub backend: Backend,
     pub plen: usize,
     pub alter: Alter,
-    /// 0 exact, 1 +1, 2 = message length, 3 larger
+    /// 0 exact, 1 +1, 2 = message length, 3 larger, 4 = 65535, 5 = 2 x message length + 7
     pub bufsize: u8,
     pub seed: u64,
+    /// deliver the altered message this many extra times (the buffer is checked after each)
+    #[serde(default)]
+    pub repeat: u8,
+    /// transport paths: a synchronised rekey of the direction before the message is written
+    #[serde(default)]
+    pub rekey_first: bool,
 }
 
 fn leaks(buf: &[u8], plain: &[u8]) -> Option<(usize, usize)> {
@@ -68,13 +76,15 @@ fn leaks(buf: &[u8], plain: &[u8]) -> Option<(usize, usize)> {
 fn oracle(c: &Case, acc: &mut Acc) -> CaseResult {
     let suites = all_suites();
     let suite = suites[c.suite_idx % suites.len()];
-    let plain = expand(c.seed, 77, c.plen.max(32));
+    let plain = expand(c.seed, 77, c.plen.max(8));
     let prefill = |n: usize| -> Vec<u8> { (0..n).map(|i| 0xC0 | (i as u8 & 0x0f)).collect() };
-    let bufsize = |msg_len: usize| match c.bufsize % 4 {
+    let bufsize = |msg_len: usize| match c.bufsize % 6 {
         0 => plain.len(),
         1 => plain.len() + 1,
         2 => msg_len,
-        _ => msg_len + 100,
+        3 => msg_len + 100,
+        4 => 65535.max(plain.len()),
+        _ => 2 * msg_len + 7,
     };
     let alter_msg = |msg: &mut Vec<u8>, payload_off: usize| match c.alter {
         Alter::TagBit(b) => {
@@ -89,6 +99,14 @@ fn oracle(c: &Case, acc: &mut Acc) -> CaseResult {
             msg.pop();
         },
         Alter::Ad => {},
+        Alter::Extend(n) => {
+            if msg.len() + (n as usize % 40) + 1 <= 65535 {
+                msg.extend(std::iter::repeat(0x3c).take(n as usize % 40 + 1));
+            } else {
+                let l = msg.len();
+                msg[l - 1] ^= 2;
+            }
+        },
     };
     let what;
     match &c.path {
@@ -124,6 +142,8 @@ fn oracle(c: &Case, acc: &mut Acc) -> CaseResult {
                     return Ok(());
                 }
                 let (w, r) = if idx % 2 == 0 { (&mut pair.i, &mut pair.r) } else { (&mut pair.r, &mut pair.i) };
+                // an encrypted static-key field of this message is decrypted plaintext of the message too
+                let secret_s: Option<Vec<u8>> = lay[*idx].fields.iter().find(|f| f.kind == crate::refnoise::FieldKind::S && f.encrypted).map(|_| spec.s_pub(idx % 2 == 0));
                 let mut msg = hs_write(w, &plain, 65535).map_err(|x| Fail::setup(format!("{what}: write: {}", e(&x))))?;
                 let payload_off = lay[*idx].overhead - 16;
                 if attack {
@@ -135,6 +155,20 @@ fn oracle(c: &Case, acc: &mut Acc) -> CaseResult {
                     ensure!(res.is_err(), "{what}: altered message accepted");
                     if let Some((i, j)) = leaks(&buf, &plain) {
                         fail!("{what}: after the rejected read the caller's buffer holds decrypted plaintext: buffer[{i}..{}] == plaintext[{j}..{}]", i + 8, j + 8);
+                    }
+                    if let Some(sk) = &secret_s {
+                        if let Some((i, j)) = leaks(&buf, sk) {
+                            fail!("{what}: after the rejected read the caller's buffer holds bytes of the message's decrypted static-key field: buffer[{i}..{}] == s[{j}..{}]", i + 8, j + 8);
+                        }
+                        acc.label("encrypted_static_field_checked");
+                    }
+                    for rep in 0..c.repeat % 3 {
+                        let mut buf = prefill(bufsize(msg.len()));
+                        let res = r.read_message(&msg, &mut buf);
+                        ensure!(res.is_err(), "{what}: altered message accepted on delivery {}", rep + 2);
+                        if let Some((i, j)) = leaks(&buf, &plain) {
+                            fail!("{what}: after delivery {} of the rejected message the caller's buffer holds decrypted plaintext: buffer[{i}..{}] == plaintext[{j}..{}]", rep + 2, i + 8, j + 8);
+                        }
                     }
                 } else {
                     let n = res.map_err(|x| Fail::new(format!("{what}: control read failed: {}", e(&x))))?;
@@ -157,30 +191,42 @@ fn oracle(c: &Case, acc: &mut Acc) -> CaseResult {
             if c.path == Path::Stateful {
                 let mut ti = pair.i.into_transport_mode().map_err(|x| Fail::setup(e(&x)))?;
                 let mut tr = pair.r.into_transport_mode().map_err(|x| Fail::setup(e(&x)))?;
+                if c.rekey_first {
+                    ti.rekey_outgoing();
+                    tr.rekey_incoming();
+                }
                 let genuine = t_write(&mut ti, &plain, plain.len() + 16).map_err(|x| Fail::setup(e(&x)))?;
                 let mut msg = genuine.clone();
                 alter_msg(&mut msg, 0);
-                let mut buf = prefill(bufsize(msg.len()));
-                let res = tr.read_message(&msg, &mut buf);
-                ensure!(res.is_err(), "{what}: altered message accepted");
-                if let Some((i, j)) = leaks(&buf, &plain) {
-                    fail!("{what}: after the rejected read the caller's buffer holds decrypted plaintext: buffer[{i}..{}] == plaintext[{j}..{}]", i + 8, j + 8);
+                for rep in 0..1 + c.repeat % 3 {
+                    let mut buf = prefill(bufsize(msg.len()));
+                    let res = tr.read_message(&msg, &mut buf);
+                    ensure!(res.is_err(), "{what}: altered message accepted (delivery {})", rep + 1);
+                    if let Some((i, j)) = leaks(&buf, &plain) {
+                        fail!("{what}: after rejected delivery {} the caller's buffer holds decrypted plaintext: buffer[{i}..{}] == plaintext[{j}..{}]", rep + 1, i + 8, j + 8);
+                    }
                 }
                 let p = t_read(&mut tr, &genuine, plain.len()).map_err(|x| Fail::new(format!("{what}: control read failed: {}", e(&x))))?;
                 ensure!(p == plain, "{what}: control payload");
             } else {
-                let ti = pair.i.into_stateless_transport_mode().map_err(|x| Fail::setup(e(&x)))?;
-                let tr = pair.r.into_stateless_transport_mode().map_err(|x| Fail::setup(e(&x)))?;
+                let mut ti = pair.i.into_stateless_transport_mode().map_err(|x| Fail::setup(e(&x)))?;
+                let mut tr = pair.r.into_stateless_transport_mode().map_err(|x| Fail::setup(e(&x)))?;
+                if c.rekey_first {
+                    ti.rekey_outgoing();
+                    tr.rekey_incoming();
+                }
                 let n = c.seed | 1 << 40;
                 let n = if n == u64::MAX { 5 } else { n };
                 let genuine = sl_write(&ti, n, &plain, plain.len() + 16).map_err(|x| Fail::setup(e(&x)))?;
                 let mut msg = genuine.clone();
                 alter_msg(&mut msg, 0);
-                let mut buf = prefill(bufsize(msg.len()));
-                let res = tr.read_message(n, &msg, &mut buf);
-                ensure!(res.is_err(), "{what}: altered message accepted");
-                if let Some((i, j)) = leaks(&buf, &plain) {
-                    fail!("{what}: after the rejected read the caller's buffer holds decrypted plaintext: buffer[{i}..{}] == plaintext[{j}..{}]", i + 8, j + 8);
+                for rep in 0..1 + c.repeat % 3 {
+                    let mut buf = prefill(bufsize(msg.len()));
+                    let res = tr.read_message(n, &msg, &mut buf);
+                    ensure!(res.is_err(), "{what}: altered message accepted (delivery {})", rep + 1);
+                    if let Some((i, j)) = leaks(&buf, &plain) {
+                        fail!("{what}: after rejected delivery {} the caller's buffer holds decrypted plaintext: buffer[{i}..{}] == plaintext[{j}..{}]", rep + 1, i + 8, j + 8);
+                    }
                 }
                 let p = sl_read(&tr, n, &genuine, plain.len()).map_err(|x| Fail::new(format!("{what}: control read failed: {}", e(&x))))?;
                 ensure!(p == plain, "{what}: control payload");
@@ -191,7 +237,13 @@ fn oracle(c: &Case, acc: &mut Acc) -> CaseResult {
     acc.label(format!("backend:{:?}", if ring_covers(suite) { c.backend } else { Backend::Default }));
     acc.label(format!("path:{}", match &c.path { Path::Hs(..) => "handshake", Path::Stateful => "stateful", Path::Stateless => "stateless" }));
     acc.label(format!("alter:{}", format!("{:?}", c.alter).split('(').next().unwrap()));
-    acc.label(format!("bufsize:{}", c.bufsize % 4));
+    acc.label(format!("bufsize:{}", c.bufsize % 6));
+    if plain.len() < 32 {
+        acc.label("plaintext:<32");
+    }
+    if c.repeat % 3 > 0 {
+        acc.label("repeated_delivery");
+    }
     acc.nontrivial(&what);
     Ok(())
 }
@@ -221,13 +273,16 @@ pub fn run(ctx: &Ctx) {
                 continue;
             }
             for path in paths() {
-                for alter in [Alter::TagBit(0), Alter::TagBit(127), Alter::BodyByte(0), Alter::BodyByte(31), Alter::DropLast, Alter::Ad] {
-                    for bufsize in 0..4u8 {
+                for alter in [Alter::TagBit(0), Alter::TagBit(127), Alter::BodyByte(0), Alter::BodyByte(31), Alter::DropLast, Alter::Ad, Alter::Extend(0), Alter::Extend(16)] {
+                    for bufsize in 0..6u8 {
                         k += 1;
                         if ctx.tier.pick((k + suite_idx as u64) % 2 != 0, false) {
                             continue;
                         }
-                        cases.push(Case { path: path.clone(), suite_idx, backend, plen: [32usize, 33, 64, 100, 1000, 4096, 16384, 32768, 40000, 65000][(k % 10) as usize], alter, bufsize, seed: mix(ctx.seed, k) });
+                        if ctx.tier.pick(bufsize >= 4 && k % 3 != 0, false) {
+                            continue;
+                        }
+                        cases.push(Case { path: path.clone(), suite_idx, backend, plen: [32usize, 33, 64, 100, 1000, 4096, 16384, 32768, 40000, 65000, 8, 9, 15, 16, 17, 24, 31][(k % 17) as usize], alter, bufsize, seed: mix(ctx.seed, k), repeat: (k % 5 == 0) as u8 * 2, rekey_first: k % 7 == 0 });
                     }
                 }
             }
@@ -240,8 +295,8 @@ pub fn run(ctx: &Ctx) {
         ctx.tier.pick(20_000, 300_000),
         || {
             let ps = paths();
-            let alter = prop_oneof![3 => any::<u8>().prop_map(Alter::TagBit), 3 => any::<u16>().prop_map(Alter::BodyByte), 1 => Just(Alter::DropLast), 1 => Just(Alter::Ad)];
-            (0usize..10, 0usize..24, any::<bool>(), prop_oneof![6 => 32usize..4097, 2 => 4097usize..65000, 1 => Just(32767usize), 1 => Just(32768usize), 1 => Just(65000usize)], alter, 0u8..4, any::<u64>()).prop_map(move |(p, suite_idx, ring, plen, alter, bufsize, seed)| Case {
+            let alter = prop_oneof![3 => any::<u8>().prop_map(Alter::TagBit), 3 => any::<u16>().prop_map(Alter::BodyByte), 1 => Just(Alter::DropLast), 1 => Just(Alter::Ad), 1 => any::<u8>().prop_map(Alter::Extend)];
+            (0usize..10, 0usize..24, any::<bool>(), prop_oneof![2 => 8usize..32, 6 => 32usize..4097, 2 => 4097usize..65000, 1 => Just(32767usize), 1 => Just(32768usize), 1 => Just(65000usize)], alter, 0u8..6, any::<u64>()).prop_map(move |(p, suite_idx, ring, plen, alter, bufsize, seed)| Case {
                 path: ps[p].clone(),
                 suite_idx,
                 backend: if ring { Backend::RingFirst } else { Backend::Default },
@@ -249,6 +304,8 @@ pub fn run(ctx: &Ctx) {
                 alter,
                 bufsize,
                 seed,
+                repeat: (seed % 4) as u8,
+                rekey_first: seed % 5 == 0,
             })
         },
         oracle,
